@@ -79,6 +79,14 @@ static inline BOOL QList_QString_const_iterator_op_ne__QList_QString_const_itera
 static inline QList_QString_const_iterator *QList_QString_const_iterator_op_inc(QList_QString_const_iterator *a) { a->i++; return a; }
 static inline QString QList_QString_const_iterator_op_deref(QList_QString_const_iterator it)
 { __CPROVER_assert(0 <= it.i && it.i < it.l->n, "QStringList iterator dereferenced inside [begin,end)"); return tx(it.l->lines_of_rules ? T_LINE : T_OTHER, it.i, 0); }
+/* the same elements through index access (at / operator[] const / size / count / isEmpty) */
+static inline QString QList_QString_at__int(QList_QString l, int i)
+{ __CPROVER_assert(0 <= i && i < l.n, "QStringList::at(i) needs 0 <= i < size()"); return tx(l.lines_of_rules ? T_LINE : T_OTHER, i, 0); }
+static inline QString QList_QString_op_index__int(QList_QString l, int i) { return QList_QString_at__int(l, i); }
+static inline int QList_QString_size(QList_QString l) { return l.n; }
+static inline int QList_QString_count(QList_QString l) { return l.n; }
+static inline int QList_QString_length(QList_QString l) { return l.n; }
+static inline BOOL QList_QString_isEmpty(QList_QString l) { return l.n == 0; }
 
 /* regular expressions (A-regex) */
 enum { RE_UNKNOWN = 0, RE_LINE_GRAMMAR, RE_GLOB };
@@ -167,6 +175,8 @@ static inline QSharedPointer_CategoryFilter_Rule QList_QSharedPointer_CategoryFi
   if (it.i == g_L) r.p = &g_rule_L;
   else { CategoryFilter_Rule any; __CPROVER_assume(RULE_VALID(any) && any.category.kind == RE_GLOB); if (it.i > g_L) __CPROVER_assume(!MATCHES(any)); g_rule_cell = any; r.p = &g_rule_cell; }
   return r; }
+/* the same list read backwards (crbegin/crend) */
+DEFINE_REVERSE_ITERATORS(QList_QSharedPointer_CategoryFilter_Rule, QSharedPointer_CategoryFilter_Rule, QList_QSharedPointer_CategoryFilter_Rule_const_iterator_op_deref)
 static inline QSharedPointer_CategoryFilter_Rule QList_QSharedPointer_CategoryFilter_Rule_iterator_op_deref_value(RIT it) { return QList_QSharedPointer_CategoryFilter_Rule_const_iterator_op_deref(it); }
 static inline QSharedPointer_CategoryFilter_Rule *QList_QSharedPointer_CategoryFilter_Rule_iterator_op_deref(RIT it) { static QSharedPointer_CategoryFilter_Rule cell; cell = QList_QSharedPointer_CategoryFilter_Rule_const_iterator_op_deref(it); return &cell; }
 static inline QSharedPointer_CategoryFilter_Rule QSharedPointer_Rule_create(void) { QSharedPointer_CategoryFilter_Rule r; CategoryFilter_Rule fresh; g_new_rule = fresh; r.p = &g_new_rule; return r; }
